@@ -185,6 +185,20 @@ def profile_lifecycle(rng: random.Random) -> S.SimCfg:
     return cfg
 
 
+def profile_earlystop(rng: random.Random) -> S.SimCfg:
+    """a worker reports its collection and dies while the budget is exhausted / zero and other workers are still collecting"""
+    cfg = base_cfg(rng, ALL)
+    cfg.via_n = True
+    cfg.numnodes = max(cfg.numnodes, 2)
+    cfg.restart = rng.choice([0, 0, 1])
+    if len(cfg.ids) < 2:
+        cfg.ids = gen_ids(rng, cfg.mode, rng.randrange(2, 9))
+    cfg.boot_crash[rng.randrange(cfg.numnodes)] = "collected"
+    if cfg.restart == 1:
+        cfg.boot_crash[cfg.numnodes] = rng.choice(["boot", "collected", "collect"])
+    return cfg
+
+
 def profile_collecterr(rng: random.Random) -> S.SimCfg:
     cfg = base_cfg(rng, ALL)
     texts = ["t/bad.py|ImportError while importing test module", "t/bad2.py|assert 0 at module level"]
@@ -200,7 +214,7 @@ def profile_collecterr(rng: random.Random) -> S.SimCfg:
 PROFILES = {
     "plain": profile_plain, "crash": profile_crash, "requeue": lambda r: profile_crash(r, ["load", "worksteal"], True),
     "each": profile_each, "budget": profile_budget, "stop": profile_stop, "mismatch": profile_mismatch,
-    "lifecycle": profile_lifecycle, "collecterr": profile_collecterr,
+    "lifecycle": profile_lifecycle, "collecterr": profile_collecterr, "earlystop": profile_earlystop,
 }
 
 
@@ -309,14 +323,15 @@ def check_run(s: S.Sim, profile: str, res: CompResult, ops: list[str]) -> None:
     spawned = len(s.workers) - cfg.numnodes
     deaths = len([d for d in s.nodedown if d[1] is not None])
     if budget is not None:
+        bp = ["C10", "C17"] if cfg.boot_crash else ["C10"]
         if spawned > budget:
-            fire(["C10"], "restarts-exceed-budget", f"{spawned} replacement workers with --max-worker-restart={budget}")
+            fire(bp, "restarts-exceed-budget", f"{spawned} replacement workers with --max-worker-restart={budget}")
         if deaths > budget:
             want = f"worker {'%s'} crashed and worker restarting disabled" if budget == 0 else f"maximum crashed workers reached: {budget}"
             rep = s.dsession._summary_report or ""
             ok = rep == want or (budget == 0 and rep.startswith("worker gw") and rep.endswith("crashed and worker restarting disabled"))
             if not ok:
-                fire(["C10"], "no-budget-summary", f"{deaths} workers died with budget {budget}, summary line is {rep!r}")
+                fire(bp, "no-budget-summary", f"{deaths} workers died with budget {budget}, summary line is {rep!r}")
         elif s.dsession._summary_report is not None:
             fire(["C10"], "stopped-within-budget", f"{deaths} deaths within budget {budget} but the run was stopped: {s.dsession._summary_report!r}")
         if deaths <= budget and spawned != deaths and not stopped:
@@ -489,9 +504,10 @@ def check_crash_reports(s: S.Sim, f: Facts, fire: Any) -> None:
 
 
 def check_groups(s: S.Sim, f: Facts, fire: Any) -> None:
-    """C06 (scheduling half): the tests of one group run on one worker, consecutively, in collection order"""
+    """C06 (scheduling half): the tests of one group run on one worker, consecutively, in collection order; after a crash
+    the unfinished remainder of a group again goes to one single worker as one block"""
     cfg = s.cfg
-    if cfg.mode not in ("loadscope", "loadfile", "loadgroup") or f.dead:
+    if cfg.mode not in ("loadscope", "loadfile", "loadgroup"):
         return
 
     def key(nid: str) -> str:
@@ -504,15 +520,18 @@ def check_groups(s: S.Sim, f: Facts, fire: Any) -> None:
     groups: dict[str, list[int]] = {}
     for i, nid in enumerate(cfg.ids):
         groups.setdefault(key(nid), []).append(i)
+    dead = {w.id for w in f.dead}
     for g, members in groups.items():
         owners = {w.id for w in s.workers for i, _ in w.ran if i in members}
-        if len(owners) > 1:
-            fire(["C06"], "group-split-across-workers", f"group {g!r} ({members}) ran on {sorted(owners)}")
+        live_owners = owners - dead
+        if (not f.dead and len(owners) > 1) or len(live_owners) > 1:
+            fire(["C06"], "group-split-across-workers", f"group {g!r} ({members}) ran on {sorted(owners)} (dead: {sorted(dead)})")
             return
         for w in s.workers:
             seq = [i for i, _ in w.ran]
-            pos = [seq.index(i) for i in members if i in seq]
-            if pos and (pos != list(range(pos[0], pos[0] + len(pos)))):
+            mine = [i for i in seq if i in members]
+            pos = [seq.index(i) for i in mine]
+            if pos and (pos != list(range(pos[0], pos[0] + len(pos))) or mine != sorted(mine)):
                 fire(["C06"], "group-not-contiguous-in-order", f"group {g!r} ({members}) ran at positions {pos} of {w.id}: {seq}")
                 return
 
